@@ -117,13 +117,13 @@ func checkC02(t *testing.T, env *report.Env, rep *report.Report) {
 	var cfgs []cfg
 	if env.Thorough() {
 		cfgs = []cfg{
-			{"two-names-depth5", Alphabet([]string{"a", "b"}, []string{"", "x", "y"}, []uint32{0, 1, 2, 3}, true), 5},
-			{"one-name-depth7", Alphabet([]string{"a"}, []string{"", "x", "y"}, []uint32{0, 1, 2, 3, 4}, false), 7},
+			{"two-names-depth6", Alphabet([]string{"a", "b"}, []string{"", "x", "y"}, []uint32{0, 1, 2, 3}, true), 6},
+			{"one-name-depth9", Alphabet([]string{"a"}, []string{"", "x", "y"}, []uint32{0, 1, 2, 3, 4}, false), 9},
 		}
 	} else {
 		cfgs = []cfg{
-			{"two-names-depth4", Alphabet([]string{"a", "b"}, []string{"", "x", "y"}, []uint32{0, 1, 2, 3}, true), 4},
-			{"one-name-depth5", Alphabet([]string{"a"}, []string{"", "x", "y"}, []uint32{0, 1, 2, 3}, false), 5},
+			{"two-names-depth5", Alphabet([]string{"a", "b"}, []string{"", "x", "y"}, []uint32{0, 1, 2, 3}, true), 5},
+			{"one-name-depth6", Alphabet([]string{"a"}, []string{"", "x", "y"}, []uint32{0, 1, 2, 3}, false), 6},
 		}
 	}
 	if env.Replay != "" {
@@ -292,10 +292,10 @@ func checkC03(t *testing.T, env *report.Env, rep *report.Report) {
 		replayHistory(t, env, rep)
 		return
 	}
-	depth := 4
+	depth := 5
 	alpha := Alphabet([]string{"a", "b"}, []string{"", "x", "y"}, []uint32{1, 2, 3}, false)
 	if env.Thorough() {
-		depth = 5
+		depth = 6
 	}
 	fs := &failSet{}
 	sec := rep.Add(&report.Section{Name: fmt.Sprintf("restart-after-every-op-depth%d", depth), Engine: "seqx", Exhaustive: true, Extra: map[string]int64{},
